@@ -585,6 +585,22 @@ class FunctionAnalysis:
                     out |= {("view", v) for v in argvals[i]}
                 else:
                     out.add(("unknown", "view of keyword parameter"))
+            elif r[0] == "substparam":
+                i = r[1]
+                if i < len(argvals):
+                    # what the call site knows about the class of the actual argument refines the callee's own narrowing
+                    ai = i - (1 if method else 0)
+                    argexpr = call.func.value if (method and i == 0 and isinstance(call.func, ast.Attribute)) else \
+                        (call.args[ai] if 0 <= ai < len(call.args) and not any(isinstance(a, ast.Starred) for a in call.args[: ai + 1]) else None)
+                    known = set(self.classes_of(argexpr)) if argexpr is not None else set()
+                    mro = self.own.prog.mro
+                    for v in argvals[i]:
+                        if len(chain(v)) + len(chain(r[2])) > 10:
+                            out.add(("borrowed", "field/element of " + "/".join(sorted(root_kinds(v)))))
+                        else:
+                            out.add(_replace_root(r[2], v, known, mro))
+                else:
+                    out.add(("borrowed", "field/element of param"))
             else:
                 out.add(r)
         return out or {("unknown", f"call {target.fq}")}
@@ -852,6 +868,9 @@ class Ownership:
             roots = root_kinds(r)
             if roots == {"fresh"}:
                 return {("fresh", "array")}
+            root = chain(r)[-1]
+            if root[0] == "param" and root[1] >= 0 and len(chain(r)) <= 6:
+                return {("substparam", root[1], r)}
             return {("unknown", "view of non-parameter")}
         if k in ("imm", "term"):
             return {r}
@@ -860,6 +879,10 @@ class Ownership:
         if k == "global":
             return {r}
         if k in ("field", "elem", "ctx"):
+            root = chain(r)[-1]
+            if root[0] == "param" and root[1] >= 0 and len(chain(r)) <= 6:
+                # parametric: the caller substitutes the origins of its actual argument for the root
+                return {("substparam", root[1], r)}
             return {("borrowed", "field/element of " + "/".join(sorted(root_kinds(r))))}
         return {("unknown", str(r[1]) if len(r) > 1 else "?")}
 
@@ -900,6 +923,18 @@ class Ownership:
                                 cur[p] = list(witnesses[:1])
                                 changed = True
         return changed
+
+
+def _replace_root(o, new_root, known=(), mro=None):
+    """the origin `o` with its root (innermost origin of the field/view/elem chain) replaced by `new_root`; the class tag of the
+    field taken directly from the root is narrowed to the classes `known` for the actual argument"""
+    if o[0] in ("field", "view", "elem", "ctx"):
+        rest = tuple(o[2:])
+        if o[0] == "field" and known and mro is not None and o[1][0] not in ("field", "view", "elem", "ctx") and len(o) > 3:
+            keep = tuple(sorted(c for c in o[3] if any(c in mro(k) or k in mro(c) for k in known)))
+            rest = (o[2], keep or tuple(sorted(known))) + tuple(o[4:])
+        return (o[0], _replace_root(o[1], new_root, known, mro)) + rest
+    return new_root
 
 
 def _direct_param(o) -> Optional[int]:
